@@ -249,6 +249,67 @@ def h_write_stage(I, job):
     I.reach('end')
 
 
+def setup_writer(I):
+    import C07
+    C07.setup(I)
+
+
+def h_writer_states(I, job):
+    """Writer::operator()(item) / flush / operator()(Buffer&&) / set_buffer_size / close as a state machine over a mock output format and recorded queue operations"""
+    nops = job['ops']; BS = job['buffer_size']; ALT = job['alt_size']
+    def small(name, hi):
+        v = I.named(name, 8); I.assume(z3.ULE(I.term(v, 8), hi)); return I.concretize(v, name)
+    thr = small('throw_at', job['max_throw'])            # max_throw = never reached within the script
+    om = I.new_obj(nops, 'ops', 'heap'); ops = []
+    for k in range(nops):
+        o = small('op%d' % k, 4); I.store(om + k, i8, o); ops.append(o)
+    res = I.new_obj(4 * nops, 'res', 'heap'); seen = I.new_obj(8 * 16, 'seen', 'heap'); ns = I.new_obj(4, 'nseen', 'heap'); out = I.new_obj(96, 'rec', 'heap'); st = I.new_obj(4, 'status', 'heap')
+    n = I.concretize(I.call('@verif_writer_states', [om, nops, BS, ALT, thr, res, seen, 16, ns, out, 96, st]), 'n')
+    got = bytes(I.concretize(I.load(out + k, i8), 'ev') for k in range(min(n, 96))).decode()
+    results = [I.concretize(I.load(res + 4 * k, i32), 'res') for k in range(nops)]
+    nseen = I.concretize(I.load(ns, i32), 'nseen'); ids = [I.concretize(I.load(seen + 8 * k, i64), 'id') for k in range(min(nseen, 16))]
+    status = I.concretize(I.load(st, i32), 'status')
+    I.observe('events', got)
+    # what must hold for every history (independent of how the writer batches objects into buffers):
+    handed = 0; state = 0; failed_at = None
+    names = {0: 'operator()(item)', 1: 'flush()', 2: 'operator()(Buffer)', 3: 'set_buffer_size()', 4: 'close()'}
+    k_ev = 0
+    for k, o in enumerate(ops):
+        if o == 3:
+            if results[k] != 0: raise Finding('writer-state', 'set_buffer_size throws')
+            continue
+        if state != 0:
+            # a writer in error or closed state refuses further data (close() of a closed writer is a no-op)
+            if o == 4:
+                if results[k] != 0: raise Finding('writer-state', 'close() on a %s writer throws' % ('closed' if state == 2 else 'failed'))
+            elif results[k] != 1: raise Finding('writer-state', '%s on a writer in state %d returns %d instead of throwing io_error' % (names[o], state, results[k]))
+            continue
+        if results[k] == 2: state = 1; failed_at = k
+        elif results[k] == 1: raise Finding('writer-state', '%s throws io_error on a writer that is in order' % names[o])
+        else:
+            if o in (0, 2): handed += 1
+            if o == 4: state = 2
+        if results[k] == 2 and o in (0, 2): handed += 1           # the object was handed over; it may or may not have reached the output before the failure
+    if status != state: raise Finding('writer-state', 'status %d after the script, expected %d (0 okay, 1 error, 2 closed)' % (status, state))
+    # the events: header once and first; no empty buffer (an empty buffer becomes the empty string, which is the end-of-data marker of the write queue);
+    # write_end once and only on close; the end-of-data marker exactly once when closed or failed, never otherwise; an exception on the queue iff failed
+    body = got
+    if 'b0' in body: raise Finding('empty-buffer', 'an empty buffer is handed to the output format (its encoding, the empty string, ends the write thread early): events %r' % got)
+    if body.count('H') > 1 or ('b' in body and not body.startswith('H')): raise Finding('header', 'header written %d times / not first: %r' % (body.count('H'), got))
+    if state == 0:
+        if 'E' in body or 'X' in body or 'w' in body: raise Finding('early-end', 'end-of-data marker, exception or write_end although the writer is still open: %r' % got)
+    elif state == 2:
+        if not body.endswith('wE') or body.count('E') != 1 or body.count('w') != 1 or 'X' in body: raise Finding('close', 'close() must finish with write_end and exactly one end-of-data marker: %r' % got)
+    else:
+        if not body.endswith('XE') or body.count('E') != 1 or body.count('X') != 1: raise Finding('lost-error', 'a failing output must put the exception and then one end-of-data marker on the queue: %r' % got)
+    # objects: what reached the output is a prefix-order subsequence 1..m without gaps or repeats; complete when flushed / closed without failure
+    if ids != list(range(1, len(ids) + 1)): raise Finding('objects', 'objects reached the output as %s (expected 1, 2, 3, ... in order, each once)' % ids)
+    if state == 2 and len(ids) != handed: raise Finding('objects', '%d objects handed to the writer, %d reached the output before close() returned' % (handed, len(ids)))
+    if state == 0 and ops and [o for o in ops if o != 3][-1:] == [1] and len(ids) != handed: raise Finding('objects', 'flush() returned but only %d of %d objects reached the output' % (len(ids), handed))
+    if len(ids) > handed: raise Finding('objects', 'more objects reached the output than were handed over')
+    I.reach('end')
+
+
 def bzip2_harness(tier):
     q = tier == 'quick'
     return Harness('bzip2_compressor', 'io', h_bzip2_compressor, jobs=[dict(calls=7, fd=f, sync=sy, writes=w) for f in (1, 5) for sy in (0, 1) for w in ((0, 1) if q else (0, 1, 2))],
@@ -272,6 +333,10 @@ def harnesses(tier):
     ]
     hs.append(bzip2_harness(tier))
     N = 3 if q else 4
+    hs.append(Harness('writer_states', 'relay', h_writer_states, setup=setup_writer, native_ok=False,
+                      jobs=[dict(ops=k, buffer_size=bs, alt_size=alt, max_throw=mt) for k in ((4, 5) if q else (4, 5, 6)) for (bs, alt, mt) in ((64, 128, 3), (128, 64, 9), (200, 100, 1))],
+                      desc='Writer::operator()(item), flush(), operator()(Buffer&&), set_buffer_size(), close() as a state machine on a partially constructed Writer with a mock output format (whose n-th write_buffer may throw) and recorded queue operations, for every operation sequence: the header is written once and first, no empty buffer ever reaches the output format (its encoding is the end-of-data marker), objects reach the output in order, each once, all of them once flush() / close() has returned; close() ends with write_end and one end-of-data marker; a failing output puts the exception and one end-of-data marker on the queue, the call throws, and the writer refuses further data; a closed writer refuses data',
+                      bounds='every sequence of <= %d operations over 5 kinds, internal buffer sizes 64 / 128 / 200 bytes (one to three nodes), 3 failure positions; the write thread itself is C08 write_stage; threads are not started' % (5 if q else 6)))
     hs.append(Harness('write_stage', 'relay', h_write_stage, jobs=[dict(n=N)], setup=setup_write_stage, native_ok=False,
                       desc='WriteThread::operator() driven in one thread: the input queue delivers data items, the end-of-data marker, or a relayed encoder exception at a symbolic position; the (mock) compressor fails at a symbolic write or in close(): every item is written in order, close() follows the end marker, the promise gets the file size exactly once; after any failure exactly one exception is put into the promise, the notification flag is set, the input queue is shut down and nothing more is written',
                       bounds='<= %d items; promise and queue-pop operations at the stage boundary are recorders / scripts; threads are not started' % N))
